@@ -220,7 +220,14 @@ def verify(contract, scratch, tucache, bounded=0, bcase=None):
             if bounded and hasattr(contract, 'bounded_defs'):
                 for f_ in contract.bounded_defs(cx, bounded):
                     s.assume(f_)        # unfolding instances of the finite-sum definitions (conservative)
-            for lab, tags, f in contract.ensures(cx):
+            posts = list(contract.ensures(cx))
+            if bounded:
+                # the finite-sum spec functions are uninterpreted for the solver; with every loop unrolled the code's sums are
+                # explicit, so the definitions are instantiated at the concrete lengths 0..bounded+1 for every sum term the
+                # postconditions or the path mention (instances of the definition: conservative)
+                for f_ in models.bounded_sum_unfoldings([f for _, _, f in posts] + list(s.pc), bounded + 1):
+                    s.assume(f_)
+            for lab, tags, f in posts:
                 ex.oblig(s, f'post.{lab}', f, 'postcondition', tags)
                 nposts += 1
             if contract.canary:
